@@ -145,6 +145,19 @@ class mem_resources:
         store = self.store
 
         def openResource(loader, url):
+            if isinstance(url, SymStr):
+                # engine only: a (partly) symbolic URL produced by the instrumented urljoin
+                for k in store:
+                    if url == k:
+                        return loader.createResource(common.make_file(store[k]), k)
+                if url.startswith('http://m/'):
+                    raise ZConfig.ConfigurationError('error opening URL: not found', url)
+                if url.startswith('package:'):
+                    return orig(loader, url)
+                # urlopen cannot take a symbolic URL: modelled as "cannot be opened" (URLError)
+                from .. import instr
+                instr.STUBS_USED.add('urllib.request.urlopen(symbolic URL outside the in-memory store) -> URLError')
+                raise ZConfig.ConfigurationError('error opening URL: stub', url)
             url = str(url)
             if url in store:
                 return loader.createResource(common.make_file(store[url]), url)
